@@ -546,6 +546,62 @@ def positional_to_keyword(tree):
     return tree
 
 
+def integer_thresholds(tree):
+    """len(X) > k -> len(X) >= k+1,  len(X) < k -> len(X) <= k-1,  len(X) >= k -> len(X) > k-1,  len(X) != 0 -> len(X) > 0  (lengths are integers)"""
+    tree = copy.deepcopy(tree)
+
+    def is_len(x):
+        return isinstance(x, ast.Call) and isinstance(x.func, ast.Name) and x.func.id == "len" and len(x.args) == 1
+    for n in ast.walk(tree):
+        if isinstance(n, ast.Compare) and len(n.ops) == 1 and is_len(n.left) and isinstance(n.comparators[0], ast.Constant) \
+                and isinstance(n.comparators[0].value, int) and not isinstance(n.comparators[0].value, bool):
+            k = n.comparators[0].value
+            op = n.ops[0]
+            if isinstance(op, ast.Gt):
+                n.ops, n.comparators = [ast.GtE()], [ast.Constant(value=k + 1)]
+            elif isinstance(op, ast.Lt):
+                n.ops, n.comparators = [ast.LtE()], [ast.Constant(value=k - 1)]
+            elif isinstance(op, ast.GtE):
+                n.ops, n.comparators = [ast.Gt()], [ast.Constant(value=k - 1)]
+            elif isinstance(op, ast.LtE):
+                n.ops, n.comparators = [ast.Lt()], [ast.Constant(value=k + 1)]
+            elif isinstance(op, ast.NotEq) and k == 0:
+                n.ops = [ast.Gt()]
+            elif isinstance(op, ast.Eq) and k == 0:
+                n.ops, n.comparators = [ast.Lt()], [ast.Constant(value=1)]
+    ast.fix_missing_locations(tree)
+    return tree
+
+
+def numpy_spellings(tree):
+    """np.array(<list display>) -> np.asarray(<list display>);  x ** 2 -> x * x for a simple operand (name / attribute / subscript of those)"""
+    tree = copy.deepcopy(tree)
+
+    def simple(x):
+        while isinstance(x, ast.Subscript):
+            if not isinstance(x.slice, (ast.Constant, ast.Name)):
+                return False
+            x = x.value
+        return _pure_path(x)
+
+    class Tr(ast.NodeTransformer):
+        def visit_Call(self, node):
+            self.generic_visit(node)
+            if isinstance(node.func, ast.Attribute) and node.func.attr == "array" and isinstance(node.func.value, ast.Name) and node.func.value.id == "np" \
+                    and len(node.args) == 1 and not node.keywords and isinstance(node.args[0], (ast.List, ast.Tuple)):
+                node.func.attr = "asarray"
+            return node
+
+        def visit_BinOp(self, node):
+            self.generic_visit(node)
+            if isinstance(node.op, ast.Pow) and isinstance(node.right, ast.Constant) and node.right.value == 2 and simple(node.left):
+                return ast.copy_location(ast.BinOp(left=node.left, op=ast.Mult(), right=copy.deepcopy(node.left)), node)
+            return node
+    out = Tr().visit(tree)
+    ast.fix_missing_locations(out)
+    return out
+
+
 MECHANICAL = [
     ("list comprehensions assigned to a local rewritten as append loops", comp_to_loop),
     ("every `if` condition evaluated into a temporary first", cond_to_temp),
@@ -568,4 +624,6 @@ MECHANICAL = [
     ("every `return <expr>` routed through a temporary", return_via_temp),
     ("`x = E; return x` rewritten as `return E`", inline_return_temp),
     ("last positional argument of calls to same-module functions passed by keyword", positional_to_keyword),
+    ("integer comparisons of len() restated with the neighbouring threshold", integer_thresholds),
+    ("np.array of a display spelled np.asarray; x ** 2 spelled x * x", numpy_spellings),
 ]
